@@ -189,17 +189,19 @@ func laws04(c case04, domain string) []law04 {
 	// ---- reference: merge(p, t) ~ k8s strategicpatch(p, t), up to the order of keyed-list elements ----
 	if domain != "Dnull" && !c.Infer && (c.RefDom || domain == "" || domain == "A") {
 		if v := reference04(c, j1); v != nil {
-			if partial, _ := tupleRelationOf(c); partial && (domain == "M" || domain == "") &&
-				!strings.HasPrefix(v.Class, "C04/reference/reference-rejects:") {
+			specific := v.Class == "C04/reference/scalar-type-follows-target-quoting" ||
+				v.Class == "C04/reference/replace-directive-on-keyed-list-element" ||
+				strings.HasPrefix(v.Class, "C04/reference/reference-rejects:")
+			if partial, _ := tupleRelationOf(c); partial && (domain == "M" || domain == "") && !specific {
 				// a port that one side writes with and the other without its protocol: the two key tuples are merged
 				// by mergeValues, but the element is then looked up with the full tuple in both lists and not found
 				// on the side that omits the protocol -- the patch for that port is ignored (or, in append mode,
 				// added as a second element)
 				v.Class = "C04/reference/composite-key-partial-tuple-ignored"
-			} else if (domain == "M" || domain == "") && deleteIgnoredMixedOf(c) &&
-				!strings.HasPrefix(v.Class, "C04/reference/reference-rejects:") {
-				v.Class = "C04/reference/composite-key-delete-ignored-when-protocol-spelled-elsewhere"
 			}
+			// (the deletion of an element that does not spell a secondary key while another element does was a second
+			// cause, C04/reference/composite-key-delete-ignored-when-protocol-spelled-elsewhere: fixed by f30394b, no
+			// longer classified -- it would now surface under its symptom)
 			// outside D the reference may simply be stricter (it rejects what kustomize accepts): not a law failure
 			if !(domain == "A" && strings.HasPrefix(v.Class, "C04/reference/reference-rejects:")) {
 				out = append(out, *v)
